@@ -132,6 +132,10 @@ func main() {
 				buf := make([]byte, 1<<20)
 				n := runtime.Stack(buf, true)
 				emit(&proto.Event{Ev: "stacks", Dump: string(buf[:n]), Tag: op.Tag})
+			case "parse":
+				// Run on its own goroutine: a parse that never returns must not
+				// block the ops reader (the parent's watchdog deals with it).
+				go runParse(op.Parse, op.Tag)
 			case "quit":
 				os.Exit(0)
 			}
@@ -721,4 +725,77 @@ func makeCompleter(c *proto.CompSpec) func(line []rune, cursor int) readline.Com
 
 		return comps
 	}
+}
+
+// runParse parses an inputrc text with the requested options and handler.
+func runParse(ps *proto.ParseSpec, tag int) {
+	ev := &proto.Event{Ev: "parsed", Tag: tag}
+
+	defer func() {
+		if r := recover(); r != nil {
+			ev = &proto.Event{Ev: "panic", Tag: tag, Value: fmt.Sprint(r), Stack: string(debug.Stack()), Msg: "parse"}
+		}
+
+		emit(ev)
+	}()
+
+	var cfg *inputrc.Config
+	if ps.Handler == "default" {
+		cfg = inputrc.NewDefaultConfig()
+	} else {
+		cfg = inputrc.NewConfig()
+	}
+
+	cfg.ReadFileFunc = func(name string) ([]byte, error) {
+		if msg, ok := ps.ReadErr[name]; ok {
+			return nil, errors.New(msg)
+		}
+
+		if b, ok := ps.Files[name]; ok {
+			return b, nil
+		}
+
+		return nil, os.ErrNotExist
+	}
+
+	opts := []inputrc.Option{inputrc.WithHaltOnErr(ps.HaltOnErr), inputrc.WithStrict(ps.Strict)}
+	if ps.App != "" {
+		opts = append(opts, inputrc.WithApp(ps.App))
+	}
+
+	if ps.Term != "" {
+		opts = append(opts, inputrc.WithTerm(ps.Term))
+	}
+
+	if ps.Mode != "" {
+		opts = append(opts, inputrc.WithMode(ps.Mode))
+	}
+
+	if ps.Name != "" {
+		opts = append(opts, inputrc.WithName(ps.Name))
+	}
+
+	var err error
+
+	switch ps.API {
+	case "reader":
+		err = inputrc.Parse(strings.NewReader(string(ps.Text)), cfg, opts...)
+	case "file":
+		path := scratch + "/parse.inputrc"
+		os.WriteFile(path, ps.Text, 0o600)
+		err = inputrc.ParseFile(path, cfg, opts...)
+	default:
+		err = inputrc.ParseBytes(ps.Text, cfg, opts...)
+	}
+
+	if err != nil {
+		ev.HasErr = true
+		ev.Err = err.Error()
+	}
+
+	for _, b := range cfg.Binds {
+		ev.NBinds += len(b)
+	}
+
+	ev.NVars = len(cfg.Vars)
 }
